@@ -18,6 +18,26 @@ type Env struct {
 	Funcs map[string]Fn
 	// Steps counts evaluated nodes (budget).
 	Steps int
+	// Stats counts evaluation features (may be nil).
+	Stats map[string]int
+}
+
+func (env *Env) stat(k string) {
+	if env.Stats != nil {
+		env.Stats[k]++
+	}
+}
+
+func hasCall(e *hast.Expr, name string) bool {
+	if e.K == hast.ECall && e.Text == name {
+		return true
+	}
+	for _, a := range e.Args {
+		if hasCall(a, name) {
+			return true
+		}
+	}
+	return false
 }
 
 var ErrScript = errors.New("script-level fault")
@@ -91,6 +111,7 @@ func (env *Env) eval(e *hast.Expr) (Val, bool, error) {
 		if err != nil {
 			return None, false, err
 		}
+		env.stat("cell:neg:" + v.T.String())
 		if v.T != hast.TNum {
 			return None, false, fault("unary minus on " + v.T.String())
 		}
@@ -100,6 +121,7 @@ func (env *Env) eval(e *hast.Expr) (Val, bool, error) {
 		if err != nil {
 			return None, false, err
 		}
+		env.stat("cell:not:" + v.T.String())
 		if v.T != hast.TBool {
 			return None, false, fault("not on " + v.T.String())
 		}
@@ -119,18 +141,21 @@ func (env *Env) bin(e *hast.Expr) (Val, error) {
 	}
 	if op == "and" || op == "or" {
 		if l.T != hast.TBool {
+			env.stat("cell:" + op + ":" + l.T.String() + ",*")
 			return None, fault(op + " with a non-boolean left operand")
 		}
-		if op == "and" && !l.B {
-			return B(false), nil
-		}
-		if op == "or" && l.B {
-			return B(true), nil
+		if op == "and" && !l.B || op == "or" && l.B {
+			env.stat("short-circuit")
+			if hasCall(e.Args[1], "p") {
+				env.stat("short-circuit-skips-probe")
+			}
+			return B(l.B), nil
 		}
 		r, err := env.Eval(e.Args[1])
 		if err != nil {
 			return None, err
 		}
+		env.stat("cell:" + op + ":" + l.T.String() + "," + r.T.String())
 		if r.T != hast.TBool {
 			return None, fault(op + " with a non-boolean right operand")
 		}
@@ -140,6 +165,7 @@ func (env *Env) bin(e *hast.Expr) (Val, error) {
 	if err != nil {
 		return None, err
 	}
+	env.stat("cell:" + op + ":" + l.T.String() + "," + r.T.String())
 	return BinOp(op, l, r)
 }
 
